@@ -9,15 +9,38 @@ from lib.emit import emit_stream
 ALLOWED = {"github.com/koykov/inspector", "encoding/json", "strconv", "bytes", "github.com/koykov/byteconv", "github.com/koykov/x2bytes"}
 
 
+def imports_of(src):
+    m = re.search(r"^import \((.*?)^\)", src, re.S | re.M)
+    return re.findall(r'"([^"]+)"', m.group(1)) if m else re.findall(r'^import "([^"]+)"', src, re.M)
+
+
+def reflective_identifiers(repo):
+    """exported top-level names of the library declared in files that import reflect (reflect.go: ReflectInspector)"""
+    names = set()
+    for f in glob.glob(os.path.join(repo, "*.go")):
+        if f.endswith("_test.go"):
+            continue
+        src = open(f).read()
+        if "reflect" in imports_of(src):
+            names.update(re.findall(r"^(?:type|var|const|func)\s+([A-Z]\w*)", src, re.M))
+    return names
+
+
 def post(tier, seed, cov, result):
-    """no reflection: the import list of every generated file (runner units and the shipped testobj_ins)"""
+    """no reflection: the import list of every generated file (runner units and the shipped testobj_ins), and the text of
+    every generated file: no use of package reflect, no mention of a name the library declares in a file that imports
+    reflect (inspector.ReflectInspector), no "reflect" literal (the registry name of the reflection based inspector)"""
     repo = os.environ.get("VERIF_REPO", "/repo")
-    files = glob.glob(os.path.join(CACHE, "emit", "*", "src", "gen", "*_ins", "*_ins.go")) + glob.glob(os.path.join(repo, "testobj_ins", "*.go"))
+    refl = reflective_identifiers(repo)
+    cov["library_names_built_on_reflect"] = sorted(refl)
+    # the runner this run used (lib/emit.py keeps one per tier, named <tier>-<hash>): a runner another tier left behind may
+    # have been generated from another tree (VERIF_REPO)
+    mine = ("0" if tier == "quick" else "1") + "-*"
+    files = glob.glob(os.path.join(CACHE, "emit", mine, "src", "gen", "*_ins", "*_ins.go")) + glob.glob(os.path.join(repo, "testobj_ins", "*.go"))
     bad = []
     for f in files:
         src = open(f).read()
-        m = re.search(r"^import \((.*?)^\)", src, re.S | re.M)
-        imps = re.findall(r'"([^"]+)"', m.group(1)) if m else re.findall(r'^import "([^"]+)"', src, re.M)
+        imps = imports_of(src)
         pkg = re.search(r"^// source: (\S+)", src, re.M)
         own = pkg.group(1) if pkg else ""
         for i in imps:
@@ -26,6 +49,10 @@ def post(tier, seed, cov, result):
             bad.append("%s imports %s" % (os.path.relpath(f, ROOT) if f.startswith(ROOT) else f, i))
         if re.search(r"\breflect\.", src):
             bad.append("%s uses reflect" % f)
+        if re.search(r'"reflect"', src):
+            bad.append('%s mentions "reflect"' % f)
+        for name in sorted(set(re.findall(r"\binspector\.([A-Z]\w*)", src)) & refl):
+            bad.append("%s uses inspector.%s (declared in a file of the library that imports reflect)" % (f, name))
     cov["generated_files_scanned_for_imports"] = len(files)
     cov["import_violations"] = bad[:20]
     if (bad or not files) and not result["violation"]:
@@ -45,8 +72,15 @@ CHECK = Check(
           "value, pre-sized buffer) at scalar/string/bytes leaves and of Loop at slices, each made with the object handed in as *T and as **T "
           "(both pointer forms the generated cast accepts) - the demand is 0 in both; by value (T, the third accepted form: the property "
           "is silent, spec *) the reads are measured on the first element and slice case of every unit and predicted (GetTo 1: the "
-          "reference points into the copy; the others 0); the import lists of all "
-          "generated files are scanned (no reflect); liveness of the returned reference is observed in the C01 stream. distinct = "
+          "reference points into the copy; the others 0); what generated code HANDS OUT: for every unit and every place of the "
+          "emitted Loop that iterates a map or a non-byte slice (roots, fields, map entries and slice elements that are collections "
+          "themselves; element kinds scalar, string, struct, pointers to them, nested map, nested slice; quick tier: scalar/string "
+          "element sites of the single-shape units thinned to every second) Loop runs over a populated value handed in by value, as "
+          "*T and as **T and the dynamic Go types of all inspectors passed to Iterator.SetKey/SetVal are classified - a generated "
+          "<X>Inspector or one of the library's inspectors that do without reflect (Static, Strings, StringAnyMap) is demanded, the "
+          "model column is the inspector name in the trace of Model/Loop.v; the import lists and the text of all "
+          "generated files are scanned (no reflect import or use, no \"reflect\" literal, no name the library declares in a file "
+          "that imports reflect, i.e. inspector.ReflectInspector); liveness of the returned reference is observed in the C01 stream. distinct = "
           "distinct input."),
     assumptions=["allocation is decided by the Go compiler's escape analysis: measured on these cases, not proved",
                  "the assigned value is boxed once outside the measured call; the path slice is built outside the call",
@@ -57,7 +91,9 @@ MANIFEST = {
     "category": "proof",
     "text": ("Partial. Proved in Rocq (with C01's Get model): the reference GetTo returns along struct fields, non-nil pointers and "
              "struct-slice indices is the live element at the access path native navigation reaches. Validated per generated file: "
-             "imports are within the emitter's finite import set, which excludes reflect. Measured, not proved: zero allocations per "
+             "imports are within the emitter's finite import set, which excludes reflect, and the text mentions no reflection based "
+             "name of the library. Observed per Loop site of every emit unit: the inspectors handed to the iterator are generated ones "
+             "or the library's reflection free ones (predicted by the Loop model of C09). Measured, not proved: zero allocations per "
              "call (AllocsPerRun) for GetTo/Compare/Length/Capacity/DeepEqual/slice Loop/SetWithBuffer on every enumerated live path."),
     "note": "Escape analysis has no model here; the allocation clause is exploration. No axioms.",
     "technique": "Rocq theorem on the Get model (aliasing) + per-file import validation + measured allocation counts",
